@@ -648,7 +648,32 @@ func shClass(exp, got *obs, deleted bool) string {
 // ==== values =====================================================================================================
 
 // valStr validates a value s-expression and returns its canonical text (the key the reference map uses)
+// specialVal: the "falsy looking" values — `u` undef (its text is `_`, what every query prints for undef), `bt` / `bf` the
+// booleans, `d` default, `(h)` the empty hash (the text `_` itself is read back as undef: valFromText)
+func specialVal(e sx.Sexp) (string, px.Value, bool) {
+	if e.IsList {
+		if len(e.List) == 1 && e.Tag() == "h" {
+			return "(h)", types.WrapHash(nil), true
+		}
+		return "", nil, false
+	}
+	switch e.Atom {
+	case "u", "_":
+		return "_", px.Undef, true
+	case "bt":
+		return "bt", types.BooleanTrue, true
+	case "bf":
+		return "bf", types.BooleanFalse, true
+	case "d":
+		return "d", types.WrapDefault(), true
+	}
+	return "", nil, false
+}
+
 func valStr(e sx.Sexp) (string, bool) {
+	if t, _, ok := specialVal(e); ok && e.Atom != "_" {
+		return t, true
+	}
 	if !e.IsList {
 		if isIntAtom(e) {
 			return strconv.FormatInt(e.MustInt(), 10), true
@@ -673,6 +698,9 @@ func valStr(e sx.Sexp) (string, bool) {
 }
 
 func valOf(e sx.Sexp) px.Value {
+	if _, v, ok := specialVal(e); ok {
+		return v
+	}
 	if !e.IsList {
 		if isIntAtom(e) {
 			return types.WrapInteger(e.MustInt())
@@ -697,6 +725,17 @@ func show(v px.Value) string {
 		return sx.Str(v.String()).Atom
 	case *types.HashEntry:
 		return show(v.Key()) + "=" + show(v.Value())
+	case px.Boolean:
+		if v.Bool() {
+			return "bt"
+		}
+		return "bf"
+	case *types.DefaultValue:
+		return "d"
+	case *types.Hash:
+		if v.Len() == 0 {
+			return "(h)"
+		}
 	case *types.Array:
 		parts := []string{"a"}
 		v.Each(func(e px.Value) { parts = append(parts, show(e)) })
@@ -710,6 +749,9 @@ func show(v px.Value) string {
 
 // text renders a value as Puppet literal text for types.Parse
 func text(e sx.Sexp) string {
+	if t, _, ok := specialVal(e); ok {
+		return map[string]string{"_": "undef", "bt": "true", "bf": "false", "d": "default", "(h)": "{}"}[t]
+	}
 	if !e.IsList {
 		if isIntAtom(e) {
 			return e.Atom
@@ -724,6 +766,9 @@ func text(e sx.Sexp) string {
 }
 
 func plainText(e sx.Sexp) bool {
+	if _, _, ok := specialVal(e); ok {
+		return e.Atom != "_"
+	}
 	if !e.IsList {
 		if isIntAtom(e) {
 			return true
@@ -808,7 +853,7 @@ func goMapPairs(implOnly bool, op string, a []sx.Sexp) bool {
 		if p.List[0].IsList || isIntAtom(p.List[0]) {
 			return false
 		}
-		if op == "gomaps" && (p.List[1].IsList || isIntAtom(p.List[1])) {
+		if op == "gomaps" && !isKeyAtom(p.List[1]) {
 			return false
 		}
 	}
@@ -816,6 +861,19 @@ func goMapPairs(implOnly bool, op string, a []sx.Sexp) bool {
 }
 
 func goValue(e sx.Sexp) interface{} {
+	if t, v, ok := specialVal(e); ok {
+		switch t {
+		case "_":
+			return nil
+		case "bt":
+			return true
+		case "bf":
+			return false
+		case "(h)":
+			return map[string]interface{}{}
+		}
+		return v
+	}
 	if !e.IsList {
 		if isIntAtom(e) {
 			return e.MustInt()
@@ -1883,7 +1941,29 @@ func hashReads(h px.OrderedMap, r *refMap, uni []sx.Sexp, fs *failures, si int, 
 			if g := show(h.Get3(valOf(k), dflt)); g != exp {
 				bad("Get3 "+ks, g, exp)
 			}
+			// the whole lookup family with the found flag spelled out (a present key whose value is undef IS present: the canonical
+			// output prints `_` for undef and for "not found" alike)
+			found := func(v px.Value, ok bool) string { return show(v) + "," + sx.B(ok) }
+			expF := r.get(ks) + "," + sx.B(r.has(ks))
+			if v, ok := h.Get(valOf(k)); found(v, ok) != expF {
+				bad("Get "+ks, found(v, ok), expF)
+			}
+			if g := show(h.Get2(valOf(k), types.WrapInteger(-7))); g != exp {
+				bad("Get2 "+ks, g, exp)
+			}
+			if g := h.IncludesKey(valOf(k)); g != r.has(ks) {
+				bad("IncludesKey "+ks, sx.B(g), sx.B(r.has(ks)))
+			}
 			if isKeyAtom(k) {
+				if v, ok := h.Get4(k.MustStr()); found(v, ok) != expF {
+					bad("Get4 "+ks, found(v, ok), expF)
+				}
+				if g := show(h.Get5(k.MustStr(), types.WrapInteger(-7))); g != exp {
+					bad("Get5 "+ks, g, exp)
+				}
+				if g := h.IncludesKey2(k.MustStr()); g != r.has(ks) {
+					bad("IncludesKey2 "+ks, sx.B(g), sx.B(r.has(ks)))
+				}
 				if g := show(h.Get6(k.MustStr(), dflt)); g != exp {
 					bad("Get6 "+ks, g, exp)
 				}
@@ -2196,7 +2276,7 @@ func seqReads(l px.List, ref []string, class string, fs *failures, si int, st sx
 func flattenTexts(vs []string) []string {
 	out := []string{}
 	for _, v := range vs {
-		if strings.HasPrefix(v, "(") {
+		if strings.HasPrefix(v, "(a") { // an array text (`(h)`, the empty hash, is a leaf)
 			xs, err := sx.Parse(v)
 			if err != nil || len(xs) != 1 {
 				panic("flattenTexts: " + v)
@@ -2665,12 +2745,12 @@ func hashAlphabet() []string {
 	keys := []string{"1", k("1"), "(a 1)", k("a")}
 	ops := []string{}
 	for _, key := range keys {
-		for _, v := range []string{"1", "2"} {
+		for _, v := range []string{"1", "2", "u"} { // `u` = undef: a present key whose value is undef is present
 			ops = append(ops, "(put L "+key+" "+v+")")
 		}
 		ops = append(ops, "(delete L "+key+")")
 	}
-	ops = append(ops, "(deleteAll L (1 "+k("1")+"))", "(deleteAll L ((a 1) "+k("a")+" 1))", "(merge L 0)", "(merge 1 L)", "(get 0 (a 1))",
+	ops = append(ops, "(deleteAll L (1 "+k("1")+"))", "(deleteAll L ((a 1) "+k("a")+" 1))", "(merge L 0)", "(merge 1 L)", "(get 0 (a 1))", "(get L "+k("1")+")",
 		"(slice L 1 2)", "(select L ("+k("1")+" (a 1)))", "(sort L)")
 	return ops
 }
@@ -2752,9 +2832,16 @@ func randHKey(r *rand.Rand) string {
 	return hashKeys[r.Intn(4)]
 }
 
+// falsy: undef and the values that look like "nothing" (a lookup that tests the VALUE instead of the presence of the key
+// takes a present key for an absent one)
+var falsy = []string{"u", "u", "u", "bf", "bt", "0", "x", "(a)", "(h)", "d"}
+
 func randHVal(r *rand.Rand) string {
-	if r.Intn(6) == 0 {
+	switch x := r.Intn(12); {
+	case x < 2:
 		return randHKey(r)
+	case x < 5:
+		return falsy[r.Intn(len(falsy))]
 	}
 	return strconv.Itoa(r.Intn(3))
 }
@@ -2957,11 +3044,11 @@ func entryArrAlphabet() []string {
 // listHashAlphabet: the List forms of Merge, the other constructors, Entries / Unique / Delete on a mutable hash
 // (implementation only).  pool[0] = a mutable hash {1=>5, 'a'=>6}, pool[1] = {1=>1, '1'=>2, [1]=>3}
 func listHashAlphabet() []string {
-	return []string{"(add L 1 9)", "(add L " + k("a") + " 9)", "(adda L (a 1) 9)", "(adda L 2 9)", "(addAll L 1)", "(addAll 1 L)", "(addAll L 0)",
+	return []string{"(add L 1 u)", "(add L " + k("a") + " 9)", "(adda L (a 1) 9)", "(adda L 2 9)", "(addAll L 1)", "(addAll 1 L)", "(addAll L 0)",
 		"(addAllArr L (" + k("a") + " 7) (1 8))", "(addAllFlat L (" + k("1") + " 7) (2 8))", "(addAllArr L)", "(mergeom L 1)", "(mergeom 1 L)", "(mergeom 0 L)",
 		"(entries L)", "(unique L)", "(entries 0)", "(unique 0)", "(delete 0 1)", "(delete 0 2)", "(deleteAll 0 (" + k("a") + " 1))", "(deleteAll 0 ())",
-		"(mput 0 1 7)", "(mput 0 2 7)", "(mputall 0 L)", "(fromArr (1 1) (" + k("1") + " 2))", "(fromFlat (1 1) ((a 1) 2))", "(indexed 5 6)",
-		"(wrap2 (" + k("a") + " 1) (1 2))", "(shv (" + k("a") + " 1) (" + k("b") + " 2) (" + k("a") + " 3))", "(parsetop (" + k("a") + " (a 1 2)))",
+		"(mput 0 1 u)", "(mput 0 2 bf)", "(mputall 0 L)", "(fromArr (1 u) (" + k("1") + " 2))", "(fromFlat (1 1) ((a 1) 2))", "(indexed 5 6)",
+		"(wrap2 (" + k("a") + " 1) (1 2))", "(shv (" + k("a") + " 1) (" + k("b") + " u) (" + k("a") + " 3))", "(parsetop (" + k("a") + " (a 1 2)))",
 		"(parsemix (1 1) (" + k("1") + " 2) (1 3) (" + k("a") + " 4))", "(delete L 1)", "(get L 1)"}
 }
 
@@ -3182,8 +3269,8 @@ func gen(g *core.G) {
 	}
 	halpha := hashAlphabet()
 	sequences(halpha, n-1, func(ops []string) {
-		// pool[0] = {1=>1, '1'=>2, [1]=>3}; `L` = the hash made by the previous step
-		out := []string{"(wrap (1 1) (" + k("1") + " 2) ((a 1) 3))"}
+		// pool[0] = {1=>1, '1'=>undef, [1]=>false}; `L` = the hash made by the previous step
+		out := []string{"(wrap (1 1) (" + k("1") + " u) ((a 1) bf))"}
 		size := 1
 		for _, o := range ops {
 			made := !strings.HasPrefix(o, "(get") && !(strings.HasPrefix(o, "(merge 1") && size < 2) && !strings.HasPrefix(o, "(slice")
@@ -3201,7 +3288,7 @@ func gen(g *core.G) {
 			sequences(keys, l, func(ks []string) {
 				ps := []string{}
 				for i, key := range ks {
-					ps = append(ps, "("+key+" "+strconv.Itoa(i+1)+")")
+					ps = append(ps, "("+key+" "+[]string{"u", "2", "bf"}[i]+")")
 				}
 				g.Emit("hash (" + ctor + " " + strings.Join(ps, " ") + ") (put 0 " + keys[0] + " 9) (delete 0 " + keys[1] + ") (merge 0 0)")
 			})
@@ -3237,7 +3324,7 @@ func gen(g *core.G) {
 	emitOver(g, "@earr", "(lit 1 "+k("1")+") (entry 1 "+k("1")+") (entry 2 2) (lit (a 1 "+k("1")+") 2)", 4, entryArrAlphabet(), n-1, func(o string) bool {
 		return hasAnyPrefix(o, "(slice", "(eachSlice", "(find")
 	})
-	emitOver(g, "@ehash", "(mnew) (mput 0 1 5) (mput 0 "+k("a")+" 6) (wrap (1 1) ("+k("1")+" 2) ((a 1) 3))", 2, listHashAlphabet(), n-2, func(o string) bool {
+	emitOver(g, "@ehash", "(mnew) (mput 0 1 5) (mput 0 "+k("a")+" u) (wrap (1 1) ("+k("1")+" u) ((a 1) 3))", 2, listHashAlphabet(), n-2, func(o string) bool {
 		return hasAnyPrefix(o, "(mput", "(get", "(addAll L 0)")
 	})
 	// 2. random long histories
